@@ -73,6 +73,27 @@ def handle (op : String) (j : Json) : Option Json :=
       match r with
       | .error e => some (errJ e)
       | .ok rs => some (obj [("revs", Json.arr (rs.map (fun x => match x with | some i => Json.str i | none => Json.null)).toArray)])
+  | "rev.parse" =>
+    match load (histOfJson j) (optsOfJson j) with
+    | .error e => some (obj [("loadErr", Json.str e.name)])
+    | .ok m =>
+      let rows := getStrList j "rows"
+      let t := getStrD j "target"
+      if getBoolD j "up" then
+        match parseUpgradeTarget m rows t with
+        | .error e => some (errJ e)
+        | .ok ts => some (obj [("targets", strs ts)])
+      else
+        match parseDowngradeTarget m rows t with
+        | .error e => some (errJ e)
+        | .ok (b, r) => some (obj [("branch", match b with | some x => Json.str x | none => Json.null),
+                                   ("target", match r with | some x => Json.str x | none => Json.null)])
+  | "rev.spec.plain" =>
+    let h := histOfJson j
+    some (obj [("holds", Json.bool (Spec.Rev.plainResolveOk h (getStrD j "ident") (getStrD j "result")))])
+  | "rev.spec.steps" =>
+    let h := histOfJson j
+    some (obj [("holds", Json.bool (Spec.Rev.stepsDown h (getNatD j "n") (getStrD j "from") (getStr j "to")))])
   | "rev.spec.upgrade" =>
     let h := histOfJson j
     some (obj [("holds", Json.bool (Spec.Rev.upgradeOk h (getStrList j "rows") (getStrList j "targets") (getStrList j "plan")))])
